@@ -5,6 +5,7 @@
 -/
 import ChessVerif.Proofs.SearchScoreGo
 import ChessVerif.Proofs.SearchScoreFree
+import ChessVerif.Proofs.SearchNmpFloor
 import ChessVerif.Proofs.SearchDemo
 
 namespace ChessVerif
@@ -14,9 +15,6 @@ theorem demo_scoreLaws (K : Keys) : ScoreLaws (demoComp K) NoMen (fun _ => True)
   tt_ok := fun _ _ => trivial
   tt_probe := fun _ _ _ _ _ _ _ h => by simp [demoComp] at h
   tt_store := fun _ _ _ _ _ _ _ _ _ _ _ _ => trivial
-  nmp_floor := fun _ d se beta h => by
-    simp only [demoComp, Bool.and_eq_true, decide_eq_true_eq] at h
-    exact h.2
   tt_failHigh := fun _ _ _ _ _ _ => trivial
   tt_nextGen := fun _ _ => trivial
   rfp_sound := fun d se beta hd _ h => by
@@ -38,6 +36,11 @@ theorem demo_scoreLaws (K : Keys) : ScoreLaws (demoComp K) NoMen (fun _ => True)
       exact (List.append_eq_nil_iff.1 this).1
     simp [demoComp, this] at h
   measure_bound := fun _ _ => by decide
+
+/-- `demoComp` guards its null-move test against the mate band: its runs never raise `St.nmpOut`. -/
+theorem demo_nmpFloor (K : Keys) : NmpFloor (demoComp K) := fun _ d se beta h => by
+  simp only [demoComp, Bool.and_eq_true, decide_eq_true_eq] at h
+  exact h.2
 
 /-- the parameter laws of the `GoSane`-free argument hold for `demoComp` (window 44, unwrapped margin). -/
 theorem demo_aspLaws (K : Keys) : AspLaws (demoComp K) where
